@@ -77,6 +77,8 @@ def run(snap, tier, seed, t0, replay):
               "equivalent spellings compared": (c.get("spelling_groups", 0), 20),
               "truly fresh interpreter cross-checks": (c.get("true_fresh", 0), 20),
               "histories with create": (c.get("histories_with_create", 0), NSHARDS),
+              "question / data-change / same question histories": (c.get("sandwich_histories", 0), NSHARDS),
+              "(data change, affected question) pairs": (c.get("affected_question_pairs", 0), NSHARDS * 4),
               "distinct ordered pairs": (len(m.nontrivial), 3000 if tier == "quick" else int(nalpha * (nalpha - 1) * 0.9))}
     return harness.finish("C13", tier, seed, LEVEL, m, RULE, t0, ASSUME, floors=floors,
                           extra_cov={"alphabet_size": nalpha, "ordered_pairs_possible": nalpha * (nalpha - 1)})
@@ -93,6 +95,11 @@ def build_alphabet(lab, ents, root_of):
         calls.append({"name": name, "group": group or name, "spec": spec, "fs": fs})
 
     files = [e for e in ents if model.natural(e).keys[-1] == model.leaf_keys.get(model.basetype(model.natural(e).name))]
+    # anchor the alphabet in the most populated corner of the universe (searches must have several results)
+    from collections import Counter
+    by3 = Counter("/".join(f.split("/")[:3]) for f in files)
+    by4 = Counter("/".join(f.split("/")[:4]) for f in files)
+    files = sorted(files, key=lambda f: (-by4["/".join(f.split("/")[:4])], -by3["/".join(f.split("/")[:3])], f))
     f1, f2 = files[0], files[-1]
     segs = f1.split("/")
     typed = [f1, f2, "/".join(segs[:5]), "/".join(segs[:3]), "/".join(segs[:2]), segs[0]]
@@ -148,6 +155,14 @@ def build_alphabet(lab, ents, root_of):
                     add("unfold_sid:%d" % i, {"f": "unfold", "search": s, "as_sid": True}, group=g)
                 if de and not du:
                     add("unfold_kw_de:%d" % i, {"f": "unfold", "search": s, "kw": {"do_extrapolate": True}}, group=g)
+    if model.alias:
+        leafk = model.leaf_keys.get(model.basetype(model.natural(f1).name))
+        for i, al_ in enumerate(sorted(model.alias)[:2]):
+            q = "%s=%s" % (leafk, al_)
+            add("unfold_alias_filter:%d" % i, {"f": "unfold", "search": "/".join(segs[:-2] + ["*"]) + "?" + q})
+            add("find_alias_filter:%d" % i, {"f": "find", "finder": "list", "search": "/".join(segs[:-2] + ["*"]) + "?" + q})
+            add("Sid_alias_query:%d" % i, {"f": "Sid", "args": ["/".join(segs[:-1]) + "?" + q]})
+            add("Sid_alias_query_uri:%d" % i, {"f": "Sid", "args": [model.natural("/".join(segs[:-1])).name + ":" + "/".join(segs[:-1]) + "?" + q]})
     for i, s in enumerate(searches[:4]):
         add("match:%d" % i, {"f": "match", "sid": f1, "search": s})
         add("match2:%d" % i, {"f": "match", "sid": f2, "search": s})
@@ -155,9 +170,14 @@ def build_alphabet(lab, ents, root_of):
     for fd in finders:
         fs = fd != "list"
         for i, s in enumerate([searches[0], searches[2], searches[5], f1, searches[6]]):
-            add("find:%s:%d" % (fd, i), {"f": "find", "finder": fd, "search": s, "as_set": fs}, fs=fs)
+            add("find:%s:%d" % (fd, i), {"f": "find", "finder": fd, "search": s, "as_set": fs}, group="find:%s:%d" % (fd, i), fs=fs)
             add("find_str:%s:%d" % (fd, i), {"f": "find", "finder": fd, "search": s, "kw": {"as_sid": False}, "as_set": fs}, fs=fs)
             add("find_one:%s:%d" % (fd, i), {"f": "find", "finder": fd, "search": s, "mode": "one", "as_set": fs}, fs=fs)
+            if i in (0, 1):
+                # same answer when the result generator is read in two parts with another (overlapping) search in between
+                add("find_interleaved:%s:%d" % (fd, i), {"f": "find_interleaved", "finder": fd, "search": s, "k": 1,
+                                                          "other_search": searches[2] if i == 0 else searches[0], "as_set": fs},
+                    group="find:%s:%d" % (fd, i), fs=fs)
             add("exists:%s:%d" % (fd, i), {"f": "find", "finder": fd, "search": s, "mode": "exists"}, fs=fs)
         add("partial_keep:%s" % fd, {"f": "find_partial", "finder": fd, "search": searches[2], "k": 2, "keep": True, "as_set": fs}, fs=fs)
         add("partial_drop:%s" % fd, {"f": "find_partial", "finder": fd, "search": searches[0], "k": 1, "keep": False, "as_set": fs}, fs=fs)
@@ -178,6 +198,21 @@ def build_alphabet(lab, ents, root_of):
         if model.natural(e) is not None:
             new_ents.append(e)
             add("create:%d" % k, {"f": "create", "sid": e, "configs": list(lab.configs)}, fs=True)
+    vi = t.keys.index("version") if "version" in t.keys else None
+    if vi is not None and vi + 1 < len(segs):
+        vr = random.Random(5)
+        for _ in range(50):
+            nv = lab.vocab.value(t, vi, vr)
+            if nv != segs[vi] and "*" not in nv and ">" not in nv:
+                break
+        e = "/".join(segs[:vi] + [nv])
+        if model.natural(e) is not None and e not in ents:
+            new_ents.append(e)
+            add("create:version", {"f": "create", "sid": e, "configs": list(lab.configs)}, fs=True)
+        # a level that the configuration answers from constants below a searched parent (state under '*' versions)
+        st_search = "/".join(segs[:vi] + ["*", segs[vi + 1]])
+        add("find_all_constants_level", {"f": "find", "finder": "all", "search": st_search, "as_set": True}, fs=True)
+        add("find_all_constants_level_one", {"f": "find", "finder": "all", "search": st_search, "mode": "exists"}, fs=True)
     add("find_created", {"f": "find", "finder": "paths:" + dflt, "search": "/".join(segs[:3] + ["created*"]), "as_set": True}, fs=True)
     add("find_created_all", {"f": "find", "finder": "all", "search": "/".join(segs[:3] + ["*"]), "as_set": True}, fs=True)
     add("filler", {"f": "filler", "n": 140, "prefix": "/".join(segs[:3]) + "/filler", "path_prefix": lab.trees.path_of(dflt, "/".join(segs[:3]))[0] + "/filler",
@@ -212,7 +247,7 @@ def worker(args):
     from lib import universe
     rec = Rec("C13")
     lab = Lab(4242)                      # deterministic universe: identical in every worker / hash seed
-    ents = universe.gen_universe(random.Random(4242), lab.model, lab.vocab, n_leaves=36, names=["ophelia", "yorick"])
+    ents = universe.gen_universe(random.Random(4242), lab.model, lab.vocab, n_leaves=60, names=["ophelia", "yorick"])
     lab.new_universe(ents=ents, names=["ophelia", "yorick"])
     root = lab.trees.pms[lab.default_config].root
     testing = os.path.dirname(os.path.dirname(root.rstrip("/")))     # .../SPIL_PROJECTS
@@ -296,14 +331,42 @@ def worker(args):
             tf = norm(json.loads(lines[0][6:]))
             if tf != fresh[n]:
                 rec.violation("fork_server_differs_from_fresh_interpreter", {"call": n, "history": []}, "%s vs %s" % (tf[:300], fresh[n][:300]))
-        # ---- histories
+        # ---- which questions does each data change affect ? (fresh children on the changed state)
         state_fresh = {(): fresh}
+        affected = {}
+        for c in calls:
+            if c["spec"]["f"] != "create":
+                continue
+            srv.run([c["spec"]])
+            fr_c = state_fresh.setdefault((c["name"],), {})
+            for x in calls:
+                if x["fs"] and x["spec"]["f"] != "create":
+                    rr = srv.run([x["spec"]])
+                    if "_failed" not in rr:
+                        fr_c[x["name"]] = norm(rr["results"][0])
+                        if fr_c[x["name"]] != fresh.get(x["name"]):
+                            affected.setdefault(c["name"], []).append(x["name"])
+            restore()
+        rec.count("affected_question_pairs", sum(len(v) for v in affected.values()))
+        # ---- histories
         names = [c["name"] for c in calls]
         for h in range(args["histories"]):
             L = rng.randint(2, 50)
             seq = [rng.choice(names) for _ in range(L)]
             if rng.random() < 0.4:
                 seq.insert(rng.randrange(len(seq)), "filler")
+            if rng.random() < 0.35:
+                # the same question before and after a data change, in one process
+                cs = sorted(affected) or [c["name"] for c in calls if c["spec"]["f"] == "create"]
+                c_ = rng.choice(cs)
+                xs = affected.get(c_) or [c["name"] for c in calls if c["fs"] and c["spec"]["f"] != "create"]
+                x_ = rng.choice(xs)          # a question whose answer this data change alters
+                i1 = rng.randrange(len(seq) + 1)
+                seq.insert(i1, x_)
+                i2 = rng.randrange(i1 + 1, len(seq) + 1)
+                seq.insert(i2, c_)
+                seq.insert(rng.randrange(i2 + 1, len(seq) + 1), x_)
+                rec.count("sandwich_histories")
             rec.ev()
             rec.count("histories")
             if any(n.startswith("create") for n in seq):
